@@ -94,13 +94,16 @@ def unrolled(c, k, extra=()):
     return fs
 
 
-def refute(c, goal, kmax=3, timeout_ms=10000):
+def refute(c, goal, kmax=3, timeout_ms=10000, hints=()):
+    """exact bounded semantics; counter-models satisfying the harness's `hints` (realistic shapes that the concretiser
+    can build, e.g. equal ids rather than a string-hash collision) are preferred"""
     goal = to_bterm(goal)
-    for k in range(0, kmax + 1):
-        fs = unrolled(c, k, [z3.Not(goal)])
-        r, s, dt = _solve(fs, timeout_ms)
-        if r == z3.sat:
-            return k, s.model()
+    for extra in ([list(hints)] if hints else []) + [[]]:
+        for k in range(0, kmax + 1):
+            fs = unrolled(c, k, [z3.Not(goal)] + extra)
+            r, s, dt = _solve(fs, timeout_ms)
+            if r == z3.sat:
+                return k, s.model()
     return None, None
 
 
@@ -313,7 +316,8 @@ def verify(h, repo, tier="quick", log=None):
                         obs.append(Ob(oname, "PROVED", backend=backend, time=round(dt, 4), case=case,
                                       outcome=kind))
                         continue
-                    k, model = refute(c, gt, kmax, timeout)
+                    hints = [to_bterm(x) for x in h.refute_hints(c, st)] if hasattr(h, "refute_hints") else []
+                    k, model = refute(c, gt, kmax, timeout, hints)
                     if model is not None:
                         witness = None
                         try:
